@@ -231,6 +231,18 @@ func (cp *ctxProv) classify(pkg *packages.Package, e ast.Expr, at ast.Node, dept
 				}
 			}
 		}
+		// the context carried by an object the API user supplied: <param>.Context() (an *http.Request)
+		if sel, ok := ast.Unparen(x.Fun).(*ast.SelectorExpr); ok && sel.Sel.Name == "Context" && len(x.Args) == 0 {
+			if id, ok := ast.Unparen(sel.X).(*ast.Ident); ok {
+				if v, ok := objOf(info, id).(*types.Var); ok {
+					if pr, isParam := cp.params[v]; isParam {
+						if fd, ok := pr.fn.(*ast.FuncDecl); ok && fd.Recv == nil && fd.Name.IsExported() {
+							return allowed("context of the API-supplied " + v.Name() + " of " + fd.Name.Name)
+						}
+					}
+				}
+			}
+		}
 		return undecided("result of call " + types.ExprString(x.Fun))
 	case *ast.SelectorExpr:
 		// tuple field .A ; struct field holding a context
